@@ -25,6 +25,7 @@ impl Ctx {
         let c = if c.line.ends_with(' ') { Case { line: format!("{}-", c.line), ..c } } else { c };
         let j = serde_json::json!({"line": c.line, "impl": c.impl_out, "oracle": c.oracle, "tags": c.tags});
         writeln!(self.out, "{}", j).unwrap(); self.out.flush().unwrap(); self.count += 1;
+        BASE.store(self.count % 2 == 1, std::sync::atomic::Ordering::Relaxed); logging(false);
         self.beat.store(now(), std::sync::atomic::Ordering::Relaxed);
     }
 }
@@ -34,12 +35,22 @@ impl Ctx {
 struct Sink;
 impl log::Log for Sink { fn enabled(&self, _: &log::Metadata) -> bool { true } fn log(&self, r: &log::Record) { let _ = format!("{}", r.args()); } fn flush(&self) {} }
 static SINK: Sink = Sink;
-pub fn logging(on: bool) { log::set_max_level(if on { log::LevelFilter::Trace } else { log::LevelFilter::Off }); }
+/// every other case of every suite runs with the logger listening (`BASE`); single reads may raise it on their own
+static BASE: std::sync::atomic::AtomicBool = std::sync::atomic::AtomicBool::new(false);
+pub fn logging(on: bool) { log::set_max_level(if on || BASE.load(std::sync::atomic::Ordering::Relaxed) { log::LevelFilter::Trace } else { log::LevelFilter::Off }); }
 
 fn main() {
     if std::env::var("PV_PANIC").is_err() { std::panic::set_hook(Box::new(|_| {})); }
     let _ = log::set_logger(&SINK); logging(false);
     let args: Vec<String> = std::env::args().collect();
+    // development aid: `pv rtfile <file.slp>` reads a file, writes it back and reports declared vs actual raw length and the re-read
+    if args.len() == 3 && args[1] == "rtfile" { let b = std::fs::read(&args[2]).unwrap();
+        match peppi::io::slippi::read(std::io::Cursor::new(&b), None) { Err(e) => println!("read: err {}", e),
+            Ok(g) => { println!("read: ok frames={}", g.frames.id.len()); let mut o = vec![];
+                match peppi::io::slippi::write(&mut o, &g) { Err(e) => println!("write: err {}", e),
+                    Ok(()) => { let decl = u32::from_be_bytes([o[11], o[12], o[13], o[14]]) as usize; println!("write: ok len={} same={} declared_raw={} bytes_after_header={}", o.len(), o == b, decl, o.len() - 15);
+                        match peppi::io::slippi::read(std::io::Cursor::new(&o), None) { Err(e) => println!("reread: err {}", e), Ok(g2) => println!("reread: ok frames={}", g2.frames.id.len()) } } } } }
+        return; }
     if args.len() < 7 || args[1] != "gen" { eprintln!("usage: pv gen <suite> <seed> <n> <quick|thorough> <out.jsonl> [progress-file]"); std::process::exit(2); }
     let suite = args[2].clone(); let seed: u64 = args[3].parse().unwrap(); let n: usize = args[4].parse().unwrap();
     let thorough = args[5] == "thorough";
